@@ -8,19 +8,15 @@
   fuel `.error .fuel`).  "Memory safe and terminating" is therefore "returns `.ok`"; the invariant `Inv`
   says that the final NUL is still there and every cursor of every import state is < n (i.e. ≤ n-1).
 
-  Reading of the English property.  `legal v s op` is what the consumer state machine of
-  hwloc/topology-xml.c can issue: any callback on any live import state in any order, except
-  (1) close_content only directly after a get_content that returned 1 (or on an auto-closed tag),
-  (2) close_child only on a child state, close_tag only on a state with a tag name, and
-  (3) for the pinned source (`v.fixE = false`) not the F05e class.  The pinned tree violates the
-  property in four places, each PROVED below as a negative fact with its witness and each excluded
-  from the differential verdict behind its own switch:
-    F05a look_init dereferences NULL+1 when sscanf matched both numbers and no '>' follows;
-    F05b backend_init writes buffer[-1] for xmlbuflen = 0;
-    F05e next_attr reads buffer[n] when an attribute value starts at the final NUL;
-    F05f hwloc__xml_import_userdata (length 0, import callback set) calls close_content without
-         get_content: '<' is written over the byte after the start tag — over the final NUL when the
-         document ends there — and the following close_tag runs off the buffer.
+  Reading of the English property.  The positive theorems are about `fixed` = the CURRENT source, with no
+  exclusion: look_init, backend_init and every callback are safe for every buffer and every state.
+  `legal fixed s op` is what the consumer state machine of hwloc/topology-xml.c can issue: any callback on
+  any live import state in any order, except close_content without a directly preceding get_content that
+  returned ≥ 0 on that state, close_child on the root state, close_tag on a state without tag name.  That the
+  one consumer that used to violate the first rule (hwloc__xml_import_userdata, F05f) now obeys it for every
+  length is `C06_userdata_close_content_safe`.
+  The four defects of the formerly pinned source stay as NEGATIVE lemmas (`..._pinned_...`), each with its
+  witness: F05a look_init NULL+1, F05b backend_init buffer[-1], F05e next_attr buffer[n], F05f bare close_content.
   The whole-loader part of the property (topology-xml.c beyond the scanner, libxml2, the core) is not
   proved: engine `xmlload` fuzzes it under ASan/UBSan/LSan and judges loaded topologies with wfCheck.
 -/
@@ -40,28 +36,34 @@ theorem okP_ex {α} {m : M α} {p : α → Bool} (h : okP m p = true) : ∃ a, m
   | error e' => simp [okP] at h
   | ok a => exact ⟨a, rfl, by simpa [okP] using h⟩
 
-/-- P0 scan_mem_safe (one callback): in every state satisfying the invariant, every legal callback
-    invocation returns (no out-of-bounds access, no NULL dereference, terminates), keeps the invariant
+/-- P0 scan_mem_safe (one callback), current source: in every state satisfying the invariant, every legal
+    callback invocation returns (no out-of-bounds access, no NULL dereference, terminates), keeps the invariant
     (final NUL intact, every cursor < n) and the buffer length. -/
-theorem C06_callback_safe (v : Variant) (s : St) (h : Inv s) (op : Op) (hl : legal v s op = true) :
-    ∃ o s', step v s op = .ok (o, s') ∧ Inv s' ∧ s'.buf.size = s.buf.size :=
-  step_ok v h op hl
+theorem C06_callback_safe (s : St) (h : Inv s) (op : Op) (hl : legal fixed s op = true) :
+    ∃ o s', step fixed s op = .ok (o, s') ∧ Inv s' ∧ s'.buf.size = s.buf.size :=
+  step_ok fixed h op hl
 
-/-- P0 scan_mem_safe (all histories), from the state set up by backend_init + look_init, for EVERY
-    caller buffer, EVERY length ≥ 1 and EVERY legal callback sequence: all reads and writes have index < n
-    and every callback terminates (`run … = .ok`), afterwards the final NUL is intact and all cursors of
+/-- next_attr, find_child and get_content are legal in EVERY state of the current source (no excluded class) -/
+theorem C06_attr_child_content_always_legal (s : St) (i len : Nat) :
+    legal fixed s (.attr i) = true ∧ legal fixed s (.child i) = true ∧ legal fixed s (.content i len) = true := by
+  refine ⟨?_, rfl, rfl⟩
+  simp only [legal]
+  cases s.frames[i]? <;> simp [fixed]
+
+/-- P0 scan_mem_safe (all histories), current source, from the state set up by backend_init + look_init, for
+    EVERY caller buffer, EVERY length ≥ 1 and EVERY legal callback sequence: all reads and writes have index
+    < n and every callback terminates (`run … = .ok`), afterwards the final NUL is intact and all cursors of
     all import states are ≤ n-1. -/
-theorem C06_scan_mem_safe (v : Variant) (src : Buf) (len : Int) (hlen : 1 ≤ len)
-    (hA : ∀ b, backendInit false src len = .ok (some b) → v.fixA = true ∨ f05a b = false) :
-    ∃ b, backendInit false src len = .ok (some b) ∧ b.size = len.toNat ∧
-    ∃ r fo, lookInit v b = .ok (r, fo) ∧
-      ∀ f, fo = some f → ∀ ops, legalRun v ⟨b, #[f]⟩ ops = true →
-        ∃ s', run v ⟨b, #[f]⟩ ops = .ok s' ∧ HasNul s'.buf ∧ s'.buf.size = b.size ∧
+theorem C06_scan_mem_safe (src : Buf) (len : Int) (hlen : 1 ≤ len) :
+    ∃ b, backendInit true src len = .ok (some b) ∧ b.size = len.toNat ∧
+    ∃ r fo, lookInit fixed b = .ok (r, fo) ∧
+      ∀ f, fo = some f → ∀ ops, legalRun fixed ⟨b, #[f]⟩ ops = true →
+        ∃ s', run fixed ⟨b, #[f]⟩ ops = .ok s' ∧ HasNul s'.buf ∧ s'.buf.size = b.size ∧
           ∀ (i : Nat) (g : Frame), s'.frames[i]? = some g →
             g.tagbuf ≤ b.size - 1 ∧ ∀ a, g.attrbuf = some a → a ≤ b.size - 1 := by
-  obtain ⟨b, hb, hn, hs⟩ := backendInit_ok false src len hlen
+  obtain ⟨b, hb, hn, hs⟩ := backendInit_ok true src len hlen
   refine ⟨b, hb, hs, ?_⟩
-  obtain ⟨r, fo, e, hf⟩ := lookInit_ok v hn (hA b hb)
+  obtain ⟨r, fo, e, hf⟩ := lookInit_ok fixed hn (Or.inl rfl)
   refine ⟨r, fo, e, ?_⟩
   intro f hfo ops hl
   obtain ⟨hf1, hf2, _⟩ := hf f hfo
@@ -71,7 +73,7 @@ theorem C06_scan_mem_safe (v : Variant) (src : Buf) (len : Int) (hlen : 1 ≤ le
     cases i with
     | zero => simp at hg; subst hg; exact ⟨hf1, hf2⟩
     | succ k => simp at hg
-  obtain ⟨s', e', h', hsz⟩ := run_ok v ops _ hinv hl
+  obtain ⟨s', e', h', hsz⟩ := run_ok fixed ops _ hinv hl
   refine ⟨s', e', h'.nul, hsz, ?_⟩
   intro i g hg
   obtain ⟨hg1, _⟩ := h'.fr i g hg
@@ -80,21 +82,21 @@ theorem C06_scan_mem_safe (v : Variant) (src : Buf) (len : Int) (hlen : 1 ≤ le
   refine ⟨by have := hg1.tb; omega, ?_⟩
   intro a ha; have := hg1.ab a ha; omega
 
-/-- P0 look_init_safe: the header skipper returns (never dereferences a failed strchr, never reads past
-    the NUL) — for the fixed source always, for the pinned source outside the F05a class. -/
-theorem C06_look_init_safe (v : Variant) (b : Buf) (hn : HasNul b) (hl : v.fixA = true ∨ f05a b = false) :
-    ∃ r fo, lookInit v b = .ok (r, fo) ∧ ∀ f, fo = some f → f.tagbuf ≤ b.size - 1 := by
-  obtain ⟨r, fo, e, h⟩ := lookInit_ok v hn hl
+/-- P0 look_init_safe, current source, unconditional: for every buffer ending in NUL the header skipper
+    returns (never dereferences a failed strchr, never reads past the NUL) and the cursor it sets is ≤ n-1. -/
+theorem C06_look_init_safe (b : Buf) (hn : HasNul b) :
+    ∃ r fo, lookInit fixed b = .ok (r, fo) ∧ ∀ f, fo = some f → f.tagbuf ≤ b.size - 1 := by
+  obtain ⟨r, fo, e, h⟩ := lookInit_ok fixed hn (Or.inl rfl)
   exact ⟨r, fo, e, fun f hf => by have := (h f hf).1.tb; omega⟩
 
-/-- F05a, negative: on the pinned source look_init dereferences NULL+1 for `<topology version="2.0"` -/
+/-- F05a, negative: on the formerly pinned source look_init dereferences NULL+1 for `<topology version="2.0"` -/
 theorem C06_f05a_pinned_null_deref :
     ∃ b : Buf, HasNul b ∧ f05a b = true ∧ lookInit pinned b = .error .null ∧
       (∃ r, lookInit fixed b = .ok r ∧ r.1.ret = -1) :=
   ⟨#[60, 116, 111, 112, 111, 108, 111, 103, 121, 32, 118, 101, 114, 115, 105, 111, 110, 61, 34, 50, 46, 48, 34, 0], ⟨by decide, by decide⟩, by decide, errIs_eq (by decide),
    (okP_ex (p := fun r => r.1.ret == -1) (by decide)).imp (fun r h => ⟨h.1, by simpa using h.2⟩)⟩
 
-/-- F05a and F05e are EXACT on the pinned source: inside the class the overrun happens for every buffer
+/-- F05a and F05e were EXACT on the formerly pinned source: inside the class the overrun happens for every buffer
     / state satisfying the invariant, outside it never. -/
 theorem C06_pinned_defects_exact (b : Buf) (hn : HasNul b) :
     (f05a b = true → lookInit pinned b = .error .null) ∧
@@ -112,18 +114,30 @@ theorem C06_pinned_defects_exact (b : Buf) (hn : HasNul b) :
     obtain ⟨r, b', f', e, _⟩ := nextAttr_ok pinned hn hf (Or.inr h)
     exact ⟨_, e⟩
 
-/-- P0 backend_init_safe: `buffer[xmlbuflen-1] = 0` is in bounds and establishes the final NUL when
-    xmlbuflen ≥ 1 ... -/
-theorem C06_backend_init_safe (src : Buf) (len : Int) (h : 1 ≤ len) :
-    ∃ b, backendInit false src len = .ok (some b) ∧ HasNul b ∧ b.size = len.toNat :=
-  backendInit_ok false src len h
+/-- P0 backend_init_safe, current source, for EVERY xmlbuflen: ≥ 1 → the copy has exactly that length and
+    ends in NUL (`buffer[xmlbuflen-1] = 0` in bounds); ≤ 0 → refused (-1) without touching memory. -/
+theorem C06_backend_init_safe (src : Buf) (len : Int) :
+    (1 ≤ len → ∃ b, backendInit true src len = .ok (some b) ∧ HasNul b ∧ b.size = len.toNat) ∧
+    (len ≤ 0 → backendInit true src len = .ok none) := by
+  refine ⟨backendInit_ok true src len, ?_⟩
+  intro h
+  unfold backendInit
+  by_cases h1 : len < 0
+  · simp [h1]; rfl
+  · have : len = 0 := by omega
+    subst this; rfl
 
-/-- ... and F05b, negative: for xmlbuflen = 0 the pinned source writes before the block -/
-theorem C06_f05b_pinned_underflow (src : Buf) :
-    backendInit false src 0 = .error .under ∧ backendInit true src 0 = .ok none :=
-  ⟨rfl, rfl⟩
+/-- F05b, negative: for xmlbuflen = 0 the formerly pinned source wrote before the block -/
+theorem C06_f05b_pinned_underflow (src : Buf) : backendInit false src 0 = .error .under := rfl
 
-/-- F05e, negative: the pinned next_attr reads buffer[n] when the value starts at the final NUL
+/-- F05f, positive, current source: hwloc__xml_import_userdata — get_content (for EVERY length, also 0), give up
+    on -1, else close_content then close_tag — is safe in every state: no access outside the buffer, final NUL kept. -/
+theorem C06_userdata_close_content_safe (b : Buf) (f : Frame) (len : Nat) (hn : HasNul b) (hf : FrameOk b.size f)
+    (hname : NameOk f) :
+    ∃ r b' f', userdataTail b f len = .ok (r, b', f') ∧ HasNul b' ∧ b'.size = b.size ∧ FrameOk b.size f' :=
+  userdataTail_ok len hn hf hname
+
+/-- F05e, negative: the formerly pinned next_attr reads buffer[n] when the value starts at the final NUL
     (state satisfying the invariant: buffer `b="` NUL, attribute cursor at 0); the fixed one returns -1. -/
 theorem C06_f05e_pinned_overread :
     ∃ (b : Buf) (f : Frame), HasNul b ∧ FrameOk b.size f ∧ f05e b f = true ∧
@@ -133,14 +147,15 @@ theorem C06_f05e_pinned_overread :
    by decide, errIs_eq (by decide),
    (okP_ex (p := fun r => r.1.ret == -1) (by decide)).imp (fun r h => ⟨h.1, by simpa using h.2⟩)⟩
 
-/-- F05f, negative: close_content without a preceding successful get_content (the one consumer path
-    outside `legal`: hwloc__xml_import_userdata with length 0) destroys the final NUL of `<u>` NUL and the
-    following close_tag reads buffer[n]. -/
-theorem C06_f05f_bare_close_content_overrun :
-    ∃ (b : Buf) (f : Frame), HasNul b ∧ FrameOk b.size f ∧
-      (closeContent b f >>= fun r => closeTag r.1 r.2) = .error (.oob b.size) :=
+/-- F05f, negative: the formerly pinned userdata importer (length 0: close_content without get_content)
+    destroys the final NUL of `<u>` NUL and its close_tag reads buffer[n]. -/
+theorem C06_f05f_pinned_bare_close_content_overrun :
+    ∃ (b : Buf) (f : Frame), HasNul b ∧ FrameOk b.size f ∧ NameOk f ∧
+      userdataTailPinned0 b f = .error (.oob b.size) ∧ (∃ r, userdataTail b f 0 = .ok r ∧ r.1 = -1) :=
   ⟨#[60, 117, 62, 0], { tagbuf := 3, tagname := .lit [117] }, ⟨by decide, by decide⟩,
-   ⟨by decide, (fun a h => by cases h), (fun t h => by cases h), (fun h => by cases h)⟩, errIs_eq (by decide)⟩
+   ⟨by decide, (fun a h => by cases h), (fun t h => by cases h), (fun h => by cases h)⟩,
+   ⟨(fun l h => by cases h; decide), (fun h => by cases h)⟩, errIs_eq (by decide),
+   (okP_ex (p := fun r => r.1 == -1) (by decide)).imp (fun r h => ⟨h.1, by simpa using h.2⟩)⟩
 
 /-- P0 distances_import_bounds: whatever the `<indexes>` / `<u64values>` children contain and however
     many there are, every `indexes[nr_indexes++]` write is below `nbobjs` and every
@@ -160,15 +175,26 @@ theorem C06_userdata_decode_bounds (length nsyms : Nat) :
     ∀ w ∈ (decWrites (udAlloc length) nsyms 0 0).1, w < udAlloc length :=
   decWrites_bounds _ nsyms 0 0
 
-/-- the 32-bit product is NOT nbobjs²: for nbobjs = 65536 the values array has 0 elements, so a document
-    with 65536 indexes and no values passes `nr_u64values == nbobjs*nbobjs` (see report, F05g) -/
-theorem C06_distances_valcap_wraps : valCap 65536 = 0 ∧ valCap 65537 = 131073 := by decide
+/-- F05j, positive: for every nbobjs that passes the attribute gate of the current source (`nbobjs ≤ 0xffff`)
+    the 32-bit product does not wrap: the values array really has nbobjs² elements ... -/
+theorem C06_distances_valcap_exact (nbobjs : Nat) (h : nbobjsAccepted nbobjs = true) :
+    valCap nbobjs = idxCap nbobjs * idxCap nbobjs ∧ 0 < idxCap nbobjs := by
+  simp only [nbobjsAccepted, Bool.and_eq_true, bne_iff_ne, ne_eq, decide_eq_true_eq] at h
+  obtain ⟨h0, h1⟩ := h
+  refine ⟨?_, by omega⟩
+  unfold valCap
+  have : idxCap nbobjs * idxCap nbobjs ≤ 65535 * 65535 := Nat.mul_le_mul h1 h1
+  omega
+
+/-- ... whereas without that gate it wrapped (the formerly pinned source: 65536 objects, 0 values) -/
+theorem C06_distances_valcap_pinned_wraps : valCap 65536 = 0 ∧ valCap 65537 = 131073 ∧
+    nbobjsAccepted 65536 = false ∧ nbobjsAccepted 65535 = true := by decide
 
 /-! non-vacuity: a concrete document scanned by a consumer-like legal history, with unescaping,
     an auto-closed child, content and closing tags -/
-example : legalRun pinned ⟨#[60, 114, 111, 111, 116, 62, 60, 97, 32, 98, 61, 34, 120, 38, 97, 109, 112, 59, 121, 34, 32, 99, 61, 34, 49, 34, 62, 60, 100, 47, 62, 116, 120, 116, 60, 47, 97, 62, 60, 47, 114, 111, 111, 116, 62, 0], #[{ tagbuf := 6, tagname := .lit (lit "root") }]⟩ [.child 0, .attr 1, .attr 1, .attr 1, .child 1, .closeTag 2, .closeChild 2, .content 1 3, .closeContent 1, .closeTag 1, .closeChild 1, .child 0, .closeTag 0] = true := by decide
-example : okP (run pinned ⟨#[60, 114, 111, 111, 116, 62, 60, 97, 32, 98, 61, 34, 120, 38, 97, 109, 112, 59, 121, 34, 32, 99, 61, 34, 49, 34, 62, 60, 100, 47, 62, 116, 120, 116, 60, 47, 97, 62, 60, 47, 114, 111, 111, 116, 62, 0], #[{ tagbuf := 6, tagname := .lit (lit "root") }]⟩ [.child 0, .attr 1, .attr 1, .attr 1, .child 1, .closeTag 2, .closeChild 2, .content 1 3, .closeContent 1, .closeTag 1, .closeChild 1, .child 0, .closeTag 0]) (fun s' => s'.frames.size == 3) = true := by decide
-example : (lookInit pinned #[60, 114, 111, 111, 116, 62, 60, 97, 32, 98, 61, 34, 120, 38, 97, 109, 112, 59, 121, 34, 32, 99, 61, 34, 49, 34, 62, 60, 100, 47, 62, 116, 120, 116, 60, 47, 97, 62, 60, 47, 114, 111, 111, 116, 62, 0]).toOption.map (·.1.ret) = some 0 := by decide
+example : legalRun fixed ⟨#[60, 114, 111, 111, 116, 62, 60, 97, 32, 98, 61, 34, 120, 38, 97, 109, 112, 59, 121, 34, 32, 99, 61, 34, 49, 34, 62, 60, 100, 47, 62, 116, 120, 116, 60, 47, 97, 62, 60, 47, 114, 111, 111, 116, 62, 0], #[{ tagbuf := 6, tagname := .lit (lit "root") }]⟩ [.child 0, .attr 1, .attr 1, .attr 1, .child 1, .closeTag 2, .closeChild 2, .content 1 3, .closeContent 1, .closeTag 1, .closeChild 1, .child 0, .closeTag 0] = true := by decide
+example : okP (run fixed ⟨#[60, 114, 111, 111, 116, 62, 60, 97, 32, 98, 61, 34, 120, 38, 97, 109, 112, 59, 121, 34, 32, 99, 61, 34, 49, 34, 62, 60, 100, 47, 62, 116, 120, 116, 60, 47, 97, 62, 60, 47, 114, 111, 111, 116, 62, 0], #[{ tagbuf := 6, tagname := .lit (lit "root") }]⟩ [.child 0, .attr 1, .attr 1, .attr 1, .child 1, .closeTag 2, .closeChild 2, .content 1 3, .closeContent 1, .closeTag 1, .closeChild 1, .child 0, .closeTag 0]) (fun s' => s'.frames.size == 3) = true := by decide
+example : (lookInit fixed #[60, 114, 111, 111, 116, 62, 60, 97, 32, 98, 61, 34, 120, 38, 97, 109, 112, 59, 121, 34, 32, 99, 61, 34, 49, 34, 62, 60, 100, 47, 62, 116, 120, 116, 60, 47, 97, 62, 60, 47, 114, 111, 111, 116, 62, 0]).toOption.map (·.1.ret) = some 0 := by decide
 example : fillAll 2 0 [[(0, true), (1, true), (7, false)]] = some ([0, 1], 2) := by decide
 example : fillAll 2 0 [[(0, true), (1, true)], [(5, false)]] = none := by decide
 
